@@ -6,9 +6,12 @@
     Lemmas4  decoder accepts every legal encoding of a `wf` value (`unpack_ok`)
     Lemmas5  decoder rejects every proper prefix as insufficient data (`unpack_prefix`)
     Lemmas6  decoder only produces integers in [-2^63, 2^64) (`unpack_range`)
+    Lemmas7  encoder never fails with `struct.error` (`pack_errs`)
+    Lemmas8  decoder on byte strings never reaches a "logic error" branch (`unpack_good`)
+    Lemmas9  smallest-format selection (`pack_minimal`)
   This file: the `loads`/`dumps`-level corollaries the property theorems call.
 -/
-import SuppModel.Msgpack.Lemmas6
+import SuppModel.Msgpack.Lemmas9
 
 namespace SuppModel.Msgpack
 set_option linter.unusedSimpArgs false
@@ -67,5 +70,23 @@ theorem loads_range (bs : Bytes) (v : Value) (hb : BytesOK bs) (h : loads bs = .
     injection h with h
     subst h
     exact (unpack_range _ bs v' r hb hu).1
+
+/-- the encoder's output is a shortest legal encoding, up to 4 bytes per float (the encoder always
+    uses float64; the specification also allows float32 where exact) -/
+theorem dumps_minimal (v : Value) (bs : Bytes) (he : Encodes v bs) (h : wf v = true) :
+    ∃ ds, dumps v = .ok ds ∧ ds.length ≤ bs.length + 4 * floatCount v := by
+  obtain ⟨ds, hd, _, _⟩ := dumps_valid v h
+  exact ⟨ds, hd, pack_minimal v bs ds he hd⟩
+
+theorem decErr_iff (e : Err) : decErr e = true ↔
+    (e = .insufficient ∨ e = .invalidString ∨ e = .reserved ∨ e = .unhashable ∨ e = .duplicate ∨
+      e = .typeError) := by
+  cases e <;> simp [decErr]
+
+theorem dumps_errors (v : Value) : (∃ bs, dumps v = .ok bs) ∨ dumps v = .error .unsupported := by
+  unfold dumps
+  cases h : pack v with
+  | ok bs => exact .inl ⟨bs, rfl⟩
+  | error e => rw [pack_errs v e h]; exact .inr rfl
 
 end SuppModel.Msgpack
